@@ -11,6 +11,8 @@ LEVEL = "exploration"
 RULE = ("cases = (configuration, address set) pairs from G1 x G2 run through the public "
         "anonymize(); oracle = online flip-table monitor (flip_i must be a function of the "
         "bits before i) + direct lcp comparison of random and sorted-adjacent pairs; "
+        "a text-level monitor repeats flip table, collision and one-image-per-address checks on what "
+        "anonymize_ip_addr writes for addresses in context (alone, /len, dash ranges, pairs, ports, brackets; both families); "
         "exhaustive sub-checks enumerate all leading patterns of the real IPv4 class for "
         "B>=20 host bits and all 2^W inputs of the width-generic base at W<=10. "
         "distinct_nontrivial = distinct (configuration, trie node) pairs at which BOTH "
@@ -46,6 +48,14 @@ def cases(ctx):
         W = rng.randint(1, 8 if ctx.quick else 10)
         yield {"kind": "smallw", "W": W, "B": rng.randint(0, W), "salt": rng.choice(ipgen.SALTS + ["s%d" % rng.getrandbits(20)]),
                "salter": rng.choice(ipgen.SALTERS)}
+    # the mapping as wired up by FileAnonymizer (both families in one run, dual-stack preserve lists)
+    from ..oracles import ipref
+
+    for fcfg in ipref.file_configs(rng, ctx.per_shard(ctx.pick(40, 2400)), quick=ctx.quick):
+        if rng.random() < 0.5:
+            fcfg["pa"] = rng.choice([["2001:db8::/32", "203.0.113.0/24"], ["2001:db8::/32"], ["fd00::/8", "10.0.0.0/8"],
+                                     ["2001:db8:aa::/48", "2001:db8::/32"], ["::/1"], ["2001:db8::1"], ["11.11.11.0/24", "fe80::/10"]])
+        yield {"kind": "filelevel", "fcfg": fcfg, "aseed": rng.getrandbits(32)}
     # a long-lived anonymizer: tens of thousands of memo entries before the last requests
     for cfg in ipgen.configs(rng, ctx.pick(1, 4), fam=4, quick=ctx.quick):
         cfg["salter"] = "default"
@@ -152,6 +162,55 @@ def _text_level(ctx, case, cfg, addrs, rng, L, B, pranges):
     return True
 
 
+def _filelevel(ctx, case):
+    """What a reader of the OUTPUT FILE sees, through FileAnonymizer: for each family the map input token -> output
+    token (whatever the tool decided to leave alone) must be injective and prefix-preserving."""
+    import random
+
+    from ..oracles import ipref
+
+    fcfg = case["fcfg"]
+    rng = random.Random(case["aseed"])
+    fa = ipref.file_anonymizer(fcfg)
+    for fam in (4, 6):
+        L = 32 if fam == 4 else 128
+        B = (fcfg.get("B4") if fam == 4 else fcfg.get("B6")) or 0
+        cfg = {"fam": fam, "salt": fcfg["salt"], "B": B, "pp": fcfg.get("pp"), "pa": fcfg.get("pa")}
+        nets = [n for n in (ipaddress.ip_network(e) for e in (fcfg.get("pa") or [])) if n.version == fam]
+        addrs = ipgen.addresses(rng, cfg if fam == 4 else {"fam": 6, "salt": fcfg["salt"], "B": B}, 120 if fam == 4 else 60, extra_nets=nets)
+        mk = ipaddress.IPv4Address if fam == 4 else ipaddress.IPv6Address
+        tokre = _V4TOK if fam == 4 else _V6TOK
+        addrs = [a for a in addrs if not (fam == 4 and ipgen.is_mask_ref(a))][:400]
+        text = "".join(" address %s;\n" % mk(a) for a in addrs)
+        out = ipref.run_io(fa, text).split("\n")
+        tt = FlipTable(L, min(B, L))
+        img = {}
+        for a, ol in zip(addrs, out):
+            toks = tokre.findall(ol)
+            try:
+                fa_ = int(mk(toks[0])) if len(toks) == 1 else None
+            except ValueError:
+                fa_ = None
+            if fa_ is None:
+                ctx.violation(dict(case, addrs=[a]), "text-image-not-an-address:file-level", "line for %s came out as %r" % (mk(a), ol))
+                return
+            ctx.ev()
+            ctx.count("file_level_observations_v%d" % fam)
+            if fa_ in img and img[fa_] != a:
+                ctx.violation(dict(case, addrs=[a, img[fa_]]), "collision:file-level",
+                              "in one output file %s and %s both become %s (preserve list %r)" % (mk(a), mk(img[fa_]), mk(fa_), fcfg.get("pa")))
+                return
+            img[fa_] = a
+            tt.observe(a, fa_)
+        if tt.conflict is not None:
+            i, a, fa_ = tt.conflict
+            ctx.violation(dict(case, addrs=[a]), "flip-not-function-of-prefix:file-level",
+                          "in the output file, bit %d of the image of %s (-> %s) depends on more than its %d leading bits (preserve list %r)"
+                          % (i, mk(a), mk(fa_), i, fcfg.get("pa")))
+            return
+    ctx.distinct(("filelevel", fcfg["salt"], str(fcfg.get("pa")), fcfg.get("B4"), fcfg.get("B6"), case["aseed"]))
+
+
 def check_case(ctx, case):
     kind = case["kind"]
     if kind == "sampled":
@@ -160,6 +219,8 @@ def check_case(ctx, case):
         return _exh4(ctx, case)
     if kind == "smallw":
         return _smallw(ctx, case)
+    if kind == "filelevel":
+        return _filelevel(ctx, case)
     raise HarnessError("unknown case kind %r" % kind)
 
 
